@@ -9,3 +9,4 @@ CONSTANTS
   Listeners <- L2
   MaxUser = 12
   Waits <- W3
+  Timed = TRUE
